@@ -269,6 +269,126 @@ func c01walk(c *Ctx) {
 	}
 	r.Floor("FLOW", "recomputations of CalculateInfo.Request", nRecompute, 2)
 
+	// ---- the quota -> tree index the pod handlers route by
+	r.Rule("PATH(quota->tree index): in Plugin.OnQuotaDelete, for an event that carries the quota object, deleteQuotaToTreeMap(quota.Name) is reached on every path, whether or not the tree's manager still exists (updateQuotaToTreeMap never overwrites an entry, so a stale one routes the quota's pods to a manager that is gone); Plugin.OnQuotaAdd reaches updateQuotaToTreeMap before it can return for a live quota")
+	if fn := c.Fn(quotaPluginPkg, "Plugin", "OnQuotaDelete"); fn != nil {
+		f := an.Facts{}
+		obj := fn.Params[len(fn.Params)-1]
+		for _, b := range fn.Blocks {
+			for _, in := range b.Instrs {
+				ta, ok := in.(*ssa.TypeAssert)
+				if !ok || ta.X != ssa.Value(obj) || !strings.HasSuffix(ta.AssertedType.String(), ".ElasticQuota") {
+					continue
+				}
+				if ta.CommaOk {
+					f[extract(ta, 1)] = an.True
+					f[extract(ta, 0)] = an.NonNil
+				} else {
+					f[ta] = an.NonNil
+				}
+			}
+		}
+		var del ssa.CallInstruction
+		reach := an.Explore(fn, nil, f, func(in ssa.Instruction) bool {
+			if cl, ok := in.(ssa.CallInstruction); ok && an.ShortCallee(cl.Common()) == "deleteQuotaToTreeMap" {
+				del = cl
+				return true
+			}
+			return false
+		})
+		nameOK := del != nil && strings.HasSuffix(an.Path(del.Common().Args[1]), ".Name")
+		r.Check(len(f) > 0 && del != nil && len(reach.Returns()) == 0 && nameOK, "PATH", fkey(fn)+"/index-entry-removed", c.Pos(fn.Pos()), "the index entry is removed for every delete event",
+			sprintf("a quota delete can finish without removing the quota's entry from the quota->tree index (assertion recognised=%v, call found=%v, removes quota.Name=%v): pods of a re-created quota of that name are routed to a manager that no longer exists", len(f) > 0, del != nil, nameOK))
+	}
+	if fn := c.Fn(quotaPluginPkg, "Plugin", "OnQuotaAdd"); fn != nil {
+		f := an.Facts{}
+		obj := fn.Params[len(fn.Params)-1]
+		for _, b := range fn.Blocks {
+			for _, in := range b.Instrs {
+				switch x := in.(type) {
+				case *ssa.TypeAssert:
+					if x.X == ssa.Value(obj) && x.CommaOk {
+						f[extract(x, 1)] = an.True
+						f[extract(x, 0)] = an.NonNil
+					}
+				case *ssa.BinOp:
+					// DeletionTimestamp == nil
+					if an.IsNilConst(x.Y) && strings.HasSuffix(an.Path(x.X), ".DeletionTimestamp") {
+						if x.Op == token.NEQ {
+							f[x] = an.False
+						} else if x.Op == token.EQL {
+							f[x] = an.True
+						}
+					}
+				}
+			}
+		}
+		found := false
+		reach := an.Explore(fn, nil, f, func(in ssa.Instruction) bool {
+			if cl, ok := in.(ssa.CallInstruction); ok && an.ShortCallee(cl.Common()) == "updateQuotaToTreeMap" {
+				found = true
+				return true
+			}
+			return false
+		})
+		r.Check(found && len(reach.Returns()) == 0, "PATH", fkey(fn)+"/index-entry-added", c.Pos(fn.Pos()), "a live quota is always entered into the index", "a live quota can be added without being entered into the quota->tree index")
+	}
+
+	// ---- what may be replayed as a request / used delta
+	r.Rule("FLOW(no derived figure is replayed): no amount handed to updateGroupDeltaRequestNoLock derives from a load of CalculateInfo.Request (the min-raised, derived figure: replaying it books the raise as a child request that never goes away) and none handed to updateGroupDeltaUsedNoLock derives from a request figure; a 'children' share is Subtract(F, SelfF) with F the figure fed from below (ChildRequest / NonPreemptibleRequest / Used / NonPreemptibleUsed) and SelfF its own Self twin")
+	nReplay := 0
+	for _, fn := range c.PkgFuncs(quotaCorePkg) {
+		nIn := 0
+		for _, cl := range an.Calls(fn, false) {
+			sn := an.ShortCallee(cl.Common())
+			if sn != "updateGroupDeltaRequestNoLock" && sn != "updateGroupDeltaUsedNoLock" {
+				continue
+			}
+			nReplay++
+			nIn++
+			a := cl.Common().Args
+			bad := ""
+			for i := 2; i <= 3 && i < len(a); i++ {
+				for x := range backwardAll(a[i]) {
+					ld, ok := x.(*ssa.UnOp)
+					if !ok || ld.Op != token.MUL {
+						continue
+					}
+					o, f, _, ok := an.FieldOf(ld.X)
+					if !ok || !strings.HasSuffix(o, "QuotaCalculateInfo") {
+						continue
+					}
+					if sn == "updateGroupDeltaRequestNoLock" && (f == "Request" || strings.Contains(f, "Used")) {
+						bad = f
+					}
+					if sn == "updateGroupDeltaUsedNoLock" && strings.Contains(f, "Request") {
+						bad = f
+					}
+				}
+				// a children share: Subtract(F, SelfF)
+				if sub, _ := an.ResultOfCall(firstSource(a[i])); sub != nil && an.CalleeName(&sub.Call) == "k8s.io/apiserver/pkg/quota/v1.Subtract" {
+					fld := func(v ssa.Value) string {
+						if ld, ok := firstSource(v).(*ssa.UnOp); ok && ld.Op == token.MUL {
+							if o, f, _, ok := an.FieldOf(ld.X); ok && strings.HasSuffix(o, "QuotaCalculateInfo") {
+								return f
+							}
+						}
+						return ""
+					}
+					f0, f1 := fld(sub.Call.Args[0]), fld(sub.Call.Args[1])
+					if f0 != "" && f1 != "" {
+						twin := map[string]string{"ChildRequest": "SelfRequest", "NonPreemptibleRequest": "SelfNonPreemptibleRequest", "Used": "SelfUsed", "NonPreemptibleUsed": "SelfNonPreemptibleUsed"}
+						if twin[f0] != f1 {
+							bad = f0 + " - " + f1
+						}
+					}
+				}
+			}
+			r.Check(bad == "", "FLOW", sprintf("%s/replay-source#%d", fkey(fn), nIn), c.InstrPos(cl), "only figures fed from below are replayed", sprintf("the amount replayed by %s derives from %s: a derived (min-raised / aggregated) or unrelated figure is booked again", sn, bad))
+		}
+	}
+	r.Floor("FLOW", "request/used replays in package core", nReplay, 8)
+
 	// ---- the lock wrapper the per-quota discipline relies on
 	r.Rule("LOCK(wrapper): scopedLockForQuotaInfo takes the write lock of list[i] for a full scan of its slice argument with no early exit and returns a closure; that closure releases list[i] for a full scan of the same slice and takes no lock; every caller invokes the returned func exactly by a defer (so the locks are held to the caller's exit)")
 	if fn := c.Fn(quotaCorePkg, "GroupQuotaManager", "scopedLockForQuotaInfo"); fn != nil {
